@@ -74,15 +74,68 @@ template < typename T > struct VecPool : public IPool {
   AtomicValue< size_t > &total() { return v._total_number_taken; }
   AtomicValue< bool > *flags() { return v._locks; }
 };
+// The buffers of a MemorySpace are part of the slot that is handed out: a buffer that get_free_buffer() returns is empty, and nobody but
+// its holder changes it until the holder gives it back.  Every holder stamps its buffer with a packet count of its own (1..7) and
+// looks at it again when it frees the slot.
 struct MemPool : public IPool {
   MemorySpace m;
-  MemPool(size_t n) : m(n) {}
-  size_t get_safe() { return m.get_free_buffer(); }
-  size_t get_unsafe() { return m._memory_space.get_free_element(); }
-  void free_slot(size_t i) { m.free_buffer(i); }
-  void q_clear() { m._memory_space.clear(); }
-  void q_clear_after(size_t off) { m._memory_space.clear_after(off); }
-  void q_get_block(size_t n) { m._memory_space.get_free_elements(n); }
+  size_t n;
+  std::vector< uint_fast32_t > marks;
+  uint_fast32_t stamp;
+  MemPool(size_t n_) : m(n_), n(n_), marks(n_, 0), stamp(0) {}
+  void mark(size_t i) {
+    marks[i] = 1 + (stamp++ % 7);
+    m[i].grow(marks[i]);
+  }
+  void wipe() {
+    for (size_t i = 0; i < n; ++i) {
+      marks[i] = 0;
+      m[i].reset();
+    }
+  }
+  size_t get_safe() {
+    const size_t i = m.get_free_buffer();
+    if (i < n) {
+      if (m[i].size() != 0) {
+        printf("! MemorySpace::get_free_buffer handed out buffer %zu while it still holds %u packets of its previous holder (a freed buffer "
+               "must be empty before it can be taken again)\n",
+               i, (unsigned)m[i].size());
+        fflush(stdout);
+      }
+      mark(i);
+    }
+    return i;
+  }
+  size_t get_unsafe() {
+    const size_t i = m._memory_space.get_free_element();
+    if (i < n) {
+      m[i].reset();
+      mark(i);
+    }
+    return i;
+  }
+  void free_slot(size_t i) {
+    if (i < n && marks[i] != 0 && m[i].size() != marks[i]) {
+      printf("! the holder of MemorySpace buffer %zu stored %u packets in it and finds %u when it gives the buffer back: somebody else "
+             "wrote to a buffer that was handed out\n",
+             i, (unsigned)marks[i], (unsigned)m[i].size());
+      fflush(stdout);
+    }
+    if (i < n) marks[i] = 0;
+    m.free_buffer(i);
+  }
+  void q_clear() {
+    m._memory_space.clear();
+    wipe();
+  }
+  void q_clear_after(size_t off) {
+    m._memory_space.clear_after(off);
+    for (size_t i = off; i < n; ++i) {
+      marks[i] = 0;
+      m[i].reset();
+    }
+  }
+  void q_get_block(size_t nb) { m._memory_space.get_free_elements(nb); }
   AtomicValue< size_t > &cursor() { return m._memory_space._current_index; }
   AtomicValue< size_t > &taken() { return m._memory_space._number_taken; }
   AtomicValue< size_t > &maxtaken() { return m._memory_space._max_number_taken; }
